@@ -212,27 +212,37 @@ def tables(d):
     # log / map / scene
     T["log"] = [{"token": "log0", "logfile": "", "vehicle": "verif", "date_captured": "2020-01-01", "location": "lab"}]
     T["map"] = [{"token": "map0", "category": "semantic_prior", "filename": "maps/empty.png", "log_tokens": ["log0"]}]
+    # one scene, or two scenes when the descriptor has "scene_cut": k (samples [0, k) and [k, n); the generator makes the
+    # instances of the two scenes disjoint and may give the first-listed scene the LATER timestamps — the sample table
+    # is then not chronological, as in multi-scene nuScenes data)
+    cut = d.get("scene_cut")
+
+    def scene_of(i):
+        return 0 if cut is None or i < cut else 1
+
+    bounds = [(0, n)] if cut is None else [(0, cut), (cut, n)]
     T["scene"] = [
         {
-            "token": "scene0",
+            "token": f"scene{k}",
             "log_token": "log0",
-            "nbr_samples": n,
-            "first_sample_token": tok_sample(0),
-            "last_sample_token": tok_sample(n - 1),
-            "name": "scene-verif",
+            "nbr_samples": hi - lo,
+            "first_sample_token": tok_sample(lo),
+            "last_sample_token": tok_sample(hi - 1),
+            "name": f"scene-verif-{k}",
             "description": "",
         }
+        for k, (lo, hi) in enumerate(bounds)
     ]
 
-    # samples (table order = time order = chain order)
+    # samples (table order = chain order inside each scene)
     for i, s in enumerate(S):
         T["sample"].append(
             {
                 "token": tok_sample(i),
                 "timestamp": int(s["t"]),
-                "prev": tok_sample(i - 1) if i > 0 else "",
-                "next": tok_sample(i + 1) if i < n - 1 else "",
-                "scene_token": "scene0",
+                "prev": tok_sample(i - 1) if i > 0 and scene_of(i - 1) == scene_of(i) else "",
+                "next": tok_sample(i + 1) if i < n - 1 and scene_of(i + 1) == scene_of(i) else "",
+                "scene_token": f"scene{scene_of(i)}",
             }
         )
 
@@ -268,8 +278,8 @@ def tables(d):
                     "height": 720 if sen["modality"] == "camera" else 0,
                     "width": 1280 if sen["modality"] == "camera" else 0,
                     "filename": f"data/{ch}/{c}.{ext}",
-                    "prev": chain[c - 1][0] if c > 0 else "",
-                    "next": chain[c + 1][0] if c < len(chain) - 1 else "",
+                    "prev": chain[c - 1][0] if c > 0 and scene_of(chain[c - 1][1]) == scene_of(si) else "",
+                    "next": chain[c + 1][0] if c < len(chain) - 1 and scene_of(chain[c + 1][1]) == scene_of(si) else "",
                 }
             )
             T["ego_pose"].append(
